@@ -23,7 +23,7 @@ use crate::world::*;
 
 pub struct C08;
 
-pub const PATHS: &[&str] = &["valid-1", "valid-2", "valid-3", "none", "not-to-creator", "forged-sig", "non-contiguous", "self-hop"];
+pub const PATHS: &[&str] = &["valid-1", "valid-2", "valid-3", "none", "not-to-creator", "forged-sig", "non-contiguous", "self-hop", "through-creator", "through-creator-3"];
 
 #[derive(Clone, Debug, Serialize, Deserialize)]
 pub struct TxSpec {
@@ -128,6 +128,17 @@ fn add_path(w: &World, tx: &mut Transaction, user: usize, kind: &str) {
             tx.add_hop(&r2.sk, &r2.pk, &creator.pk);
         }
         "not-to-creator" => tx.add_hop(&u.sk, &u.pk, &r1.pk),
+        // the creator relayed the transaction onwards: a valid path on which the creator is a
+        // recipient, but not the last one — no work was delivered to it
+        "through-creator" => {
+            tx.add_hop(&u.sk, &u.pk, &creator.pk);
+            tx.add_hop(&creator.sk, &creator.pk, &r1.pk);
+        }
+        "through-creator-3" => {
+            tx.add_hop(&u.sk, &u.pk, &r1.pk);
+            tx.add_hop(&r1.sk, &r1.pk, &creator.pk);
+            tx.add_hop(&creator.sk, &creator.pk, &r2.pk);
+        }
         "forged-sig" => {
             tx.add_hop(&u.sk, &u.pk, &creator.pk);
             tx.path[0].sig[7] ^= 1;
@@ -155,7 +166,7 @@ impl Scenario for C08 {
     fn meta(&self) -> Meta {
         Meta {
             level: "exploration",
-            rule: "two families. work: parent chain of 1-3 blocks, then the same transaction set (1-6/8 payments, fee classes 0..150k nolan, path shapes valid-1/2/3 hops, none, not ending at the creator, forged hop signature, non-contiguous, self-hop) bundled at two timestamp offsets drawn from {0.001, 0.05, 0.2, 0.5, 0.9, 1.5, 1.999, 2.0, 2.5} heartbeats (+jitter), each offered to a fresh replica. Oracle: accepted => every path cryptographically valid, contiguous, no self-hop; and for offset < 2 heartbeats independently computed work (u128, halving per hop after the first, only paths ending at the creator) >= parent_burnfee/offset - 1; acceptance at the smaller offset implies acceptance at the larger; offset >= 2 heartbeats needs no work. payout: histories of 4-10/20 blocks with routed fee-paying transactions and three ticket patterns; for every accepted block with a Fee transaction: each output goes to the ticket's key, to a hop recipient of a transaction in the blocks being paid (previous; and the one before when the previous had no ticket), or to the sender of a path-less transaction there; sum of outputs <= fees collected by those blocks (u128). distinct_nontrivial = distinct (offset bucket, path-shape multiset, margin sign) resp. (payout history digest).",
+            rule: "two families. work: parent chain of 1-3 blocks, then the same transaction set (1-6/8 payments, fee classes 0..150k nolan, path shapes valid-1/2/3 hops, none, not ending at the creator, passing through the creator but ending elsewhere, forged hop signature, non-contiguous, self-hop) bundled at two timestamp offsets drawn from {0.001, 0.05, 0.2, 0.5, 0.9, 1.5, 1.999, 2.0, 2.5} heartbeats (+jitter), each offered to a fresh replica. Oracle: accepted => every path cryptographically valid, contiguous, no self-hop; and for offset < 2 heartbeats independently computed work (u128, halving per hop after the first, only paths ending at the creator) >= parent_burnfee/offset - 1; acceptance at the smaller offset implies acceptance at the larger; offset >= 2 heartbeats needs no work. payout: histories of 4-10/20 blocks with routed fee-paying transactions and three ticket patterns; for every accepted block with a Fee transaction: each output goes to the ticket's key, to a hop recipient of a transaction in the blocks being paid (previous; and the one before when the previous had no ticket), or to the sender of a path-less transaction there; sum of outputs <= fees collected by those blocks (u128). distinct_nontrivial = distinct (offset bucket, path-shape multiset, margin sign) resp. (payout history digest).",
             real: &["BurnFee", "Transaction::generate_total_work/validate_routing_path/get_winning_routing_node", "Block::validate (work check, golden ticket, fee transaction)", "Block::find_winning_router", "Hop"],
             stubs: &["SimIo", "SimConfig", "vendored ahash"],
             assumptions: &["secp256k1/blake3 wrappers (verify) are trusted primitives of the oracle", "genesis period >> depth"],
